@@ -300,6 +300,14 @@ func HandleSetFileInfo(cc *hotline.ClientConn, t *hotline.Transaction) (res []ho
 				return cc.NewErrReply(t, "You are not allowed to rename files.")
 			}
 		}
+
+		// The same goes for a new name that is taken.
+		if newPath, err := hotline.ReadPath(cc.FileRoot(), filePath, t.GetField(hotline.FieldFileNewName).Data); err == nil {
+			target := filepath.Join(filepath.Dir(fullFilePath), filepath.Base(newPath))
+			if _, err := os.Lstat(target); err == nil && target != fullFilePath {
+				return cc.NewErrReply(t, "Cannot rename "+string(fileName)+" because an item with that name already exists.")
+			}
+		}
 	}
 
 	if t.GetField(hotline.FieldFileComment).Data != nil {
